@@ -2,7 +2,7 @@
 its public methods, the wire encoding of an edit for the extracted Coq driver, the canonical dump (must
 print exactly what coq/C10/Drv.v `observe` prints), and the construction of a start geometry as a
 sequence of primitive edits (so that the model starts from the same state)."""
-import math, zlib, os
+import math, zlib
 from fractions import Fraction
 import numpy as np
 
@@ -439,7 +439,7 @@ def conforming(g):
         for i in range(k):
             s = frozenset((id(c.node[i]), id(c.node[(i + 1) % k])))
             sides[s] = sides.get(s, 0) + 1
-            if sides[s] > 2 and not os.environ.get('C10_OLDCONF'): return False
+            if sides[s] > 2: return False
     pairs = set()
     for con in g.connectionlist:
         key = frozenset(id(c) for c in con.column)
